@@ -16,6 +16,67 @@ CLAIMS = {
             "Vec is the reference model; bounded depth and length; no random long sequences.",
             "explicit-state exploration of the real code (exhaustive operation histories vs. reference model)",
             "h_runtime/c11"),
+    "C01": ("exploration",
+            "Differential exploration over the program grammar G: every member (receiver x argument shape x return shape, every shape also "
+            "in position 2, explicit-lifetime and multi-method members; 187 traits quick / 1625 thorough) is compiled through the real "
+            "proc-macros with a stateful implementor; every call sequence up to the depth bound over (argument value, return arm), consuming "
+            "calls last, is run directly on the implementor and through every container that can carry the trait (Box, ArcBox, Mut, ArcMut, "
+            "Ref, ArcRef, CArcSome); returned values, addresses seen, caller-side buffers, the call log (method id, arguments as seen, "
+            "instance id, state at entry), final state, drop counts, context count and allocator balance must agree step by step.",
+            "DESIGN.md §3, §4 C01",
+            "Programs outside G (nested wrapped shapes, custom_impl bodies) and sequences above the depth bound are not covered; group objects "
+            "and casts are exercised by the C08 matrix with instance-identifying return values.",
+            "bounded exhaustive enumeration of programs x call sequences, differential against direct calls on the real code",
+            "h_objects/objs"),
+    "C02": ("exploration",
+            "Same generated harness as C01, depth 1 over the whole value domain of every wrapped shape in every position the grammar accepts it: "
+            "slices (empty, offset, zero-sized elements), strings (empty, non-ASCII, interior NUL), None/Some and Ok/Err extremes, extreme "
+            "integers, impl Into sources, by-value struct, out-parameter, callbacks stopping at each position, iterators of length 0/1/4, fn "
+            "pointer, raw pointer, and every return arm; the callee's view (elements, length, address) and the caller's view of the result and "
+            "of its own buffers are compared with the direct call.",
+            "DESIGN.md §4 C02",
+            "Value domains are the listed finite ones.",
+            "bounded exhaustive enumeration of inputs x programs, differential against direct calls on the real code",
+            "h_objects/objs"),
+    "C04": ("exploration",
+            "Raw-word view of generated layout: (a) for every trait of G the static vtable is read as machine words: exactly one pointer per "
+            "method, word i is method i, and calling word i as a C caller would runs method i once; concrete and opaque objects have equal "
+            "size/alignment/bits; (b) for every generated group family x enabled set x container x context the group object is read as words: "
+            "vtable pointers in name order (mandatory, then optional, null when absent; every non-null one is called through), then instance, "
+            "then context; cast/upcast keep the bits, the final form is mandatory + requested + container. "
+            "(Repeated independent expansion in fresh processes is part of the C03/expander step when built.)",
+            "DESIGN.md §4 C04",
+            "Repeatability across processes/crates is not yet covered by this check; rustc repr(C) is trusted.",
+            "bounded exhaustive enumeration of programs/configurations on the real code (raw-memory oracle)",
+            "h_objects/objs"),
+    "C08": ("exploration",
+            "Complete matrix: generated group families (n = 1..3 quick / 1..4 thorough optional traits, a family without mandatory trait, "
+            "aliased generic instantiations, traits with &mut methods, out-of-order declarations) x all 2^n implementing types x all 2^n-1 "
+            "requested subsets x {check, as_ref, as_mut, cast, into} x {Box, Mut, Ref}; success iff requested subset of enabled; on success "
+            "every mandatory and requested method returns the value of this instance and trait, mutations reach the instance, cast+upcast gives "
+            "a group with exactly the enabled set, payload drop counts exact.",
+            "DESIGN.md §4 C08",
+            "n <= 4; methods are &self/&mut self returning u64.",
+            "exhaustive enumeration of a finite configuration matrix on the real code",
+            "h_objects/objs"),
+    "C09": ("exploration",
+            "Complete matrix handle kind x payload class x marker x context x form (plain into_opaque / trait_obj! / group_obj!): one probe per "
+            "cell asks rustc whether the opaque type has the marker; the twin probe on the concrete handle decides what is allowed; failures must "
+            "be E0277 naming the marker; cells whose conversion is rejected are recorded as not expressible. 169 cells violate the property on "
+            "the current tree (known findings, DESIGN 5.2).",
+            "DESIGN.md §4 C09, §5.2",
+            "rustc's auto-trait solver is the oracle per cell; one representative type per payload class.",
+            "exhaustive enumeration of a finite configuration matrix, compiler as per-cell oracle",
+            "gen/sendsync_c09.py"),
+    "C20": ("exploration",
+            "For 13 base definitions (6 quick) every single-edit twin (add/remove/rename/reorder method, argument/return C type, receiver, "
+            "int_result toggle, group trait add/remove/reorder, mandatory add) plus identical twins and missing sides is expanded by the real "
+            "macros under layout_checks and compared through compare_layouts / VerifyLayout::check in both directions, for every container and "
+            "context (thorough); all 9 ordered pairs of VerifyLayout::and.",
+            "DESIGN.md §4 C20",
+            "abi_stable's comparison is trusted; twins are modules of one crate; edits that keep every C type are recorded, not judged.",
+            "exhaustive enumeration of single-edit program pairs on the real code",
+            "gen/layout_c20.py + engine_layout/h_layout"),
     "C10": ("model_checking",
             "Sequential half: every history up to the depth bound over {from value/Arc/Option<Arc>, default, clone, take, transpose both ways, "
             "into_opaque, into_arc, drop} on a pool of typed and opaque CArc/CArcSome handles is executed on the real code against a "
@@ -38,12 +99,13 @@ CLAIMS = {
             "h_runtime/c12"),
     "C13": ("exploration",
             "All four integer-result functions on every Ok/Err x shipped error type with drop-counting payloads and a poisoned output slot; "
-            "ALL 2^32 raw OS error codes through encode/decode (both tiers); every listed non-OS ErrorKind. "
-            "(The generated-code half — traits marked int_result — is added by the object harness when it is built.)",
+            "ALL 2^32 raw OS error codes through encode/decode (both tiers); every listed non-OS ErrorKind. Generated half: every trait "
+            "of the grammar using int_result / no_int_result / a result alias (with and without payload, droppable payload, io::Error, "
+            "fmt::Error) x receivers x call sequences through all containers, differential against the direct call.",
             "DESIGN.md §4 C13",
-            "std::io::Error::raw_os_error is the reference for 'same OS code'. Generated int_result traits are not yet covered by this check.",
+            "std::io::Error::raw_os_error is the reference for 'same OS code'.",
             "exhaustive enumeration of the complete input domain (2^32 codes) on the real code",
-            "h_runtime/c13"),
+            "h_runtime/c13 + h_objects/objs"),
     "C14": ("exploration",
             "Every string of up to L symbols over {NUL, a, b, 2-byte, 3-byte sequence} through From<&str>, From<String>, From<&[u8]>; the raw "
             "buffer is inspected through the tracking allocator (one block, exactly prefix+1 bytes, exactly one NUL), all value-semantics "
@@ -128,6 +190,9 @@ def main():
             {"name": "explore", "path": "/verif/engine/explore", "serves_properties": sorted(CLAIMS), "kind_free_text": "history explorer over the real code (full enumeration + canonical-state BFS), crash-isolating driver, replay"},
             {"name": "instr", "path": "/verif/engine/instr", "serves_properties": sorted(CLAIMS), "kind_free_text": "tracking global allocator (layout, double free, red zones, leaks), drop-counting payloads"},
             {"name": "h_runtime", "path": "/verif/engine/h_runtime", "serves_properties": [c for c in sorted(CLAIMS) if CLAIMS[c][5].startswith("h_runtime")], "kind_free_text": "harness binaries for the runtime wrapper types"},
+            {"name": "h_objects", "path": "/verif/engine/h_objects", "serves_properties": ["C01", "C02", "C04", "C08", "C13"], "kind_free_text": "generated-program harness: gen/objects_gen.py + gen/groups_gen.py emit shard crates under engine/h_objects/shards (regenerated on every run), h_objbase holds the differential harness"},
+            {"name": "sendsync_c09", "path": "/verif/gen/sendsync_c09.py", "serves_properties": ["C09"], "kind_free_text": "probe-crate generator + per-cell rustc runs"},
+            {"name": "h_layout", "path": "/verif/engine_layout", "serves_properties": ["C20"], "kind_free_text": "separate cargo workspace (layout_checks / abi_stable); gen/layout_gen.py emits twin modules"},
             {"name": "h_task", "path": "/verif/engine/h_task", "serves_properties": ["C19"], "kind_free_text": "history explorer over wakers crossing a cglue Future/Stream/Sink object"},
             {"name": "h_loom_task", "path": "/verif/engine/h_loom_task", "serves_properties": ["C19"], "kind_free_text": "loom model of the real cglue/src/task/mod.rs over a loom-backed tarc shim (engine/tarc_shim)"},
             {"name": "h_loom_arc", "path": "/verif/engine/h_loom_arc", "serves_properties": ["C10"], "kind_free_text": "loom model of the real cglue/src/arc.rs (hook h33p_cglue_verif swaps std Arc for loom Arc)"},
